@@ -7,6 +7,8 @@
 (*   {"a":"Batch","evs":[ev..],"post":state} one full account snapshot      *)
 (*                                           carrying several reports: the  *)
 (*                                           reports applied in sequence    *)
+(*   {"a":"Persist","post":state}            the table was serialised and    *)
+(*                                           restored: the spec's stutter    *)
 (* A line that is not a step of the spec is recorded in `bad` (so that one  *)
 (* pass reports every rejected line) and the logged state is adopted.       *)
 EXTENDS OrderLifecycle, Sequences, Json, IOUtils
@@ -19,7 +21,8 @@ tvars == <<orders, last, l, bad>>
 ResetEvent == Ev("Reset", "", "", 0, 0, NoMeta, FALSE)
 EvOf(r) == Ev(r.a, r.c, r.k, r.q, r.s, r.m, r.ok)
 BatchEvent == Ev("Batch", "", "", 0, 0, NoMeta, FALSE)
-Single(r) == r.a # "Reset" /\ r.a # "Batch"
+PersistEvent == Ev("Persist", "", "", 0, 0, NoMeta, FALSE)
+Single(r) == r.a # "Reset" /\ r.a # "Batch" /\ r.a # "Persist"
 EvsOf(r) == [n \in 1..Len(r.evs) |-> EvOf(r.evs[n])]
 
 StateOf(p) == [c \in CID |-> p[c]]
@@ -55,14 +58,19 @@ TBatch == /\ Rec[l].a = "Batch"
           /\ last' = BatchEvent
           /\ bad' = IF StateOf(Rec[l].post) \in Reach(orders, EvsOf(Rec[l]), 1) THEN bad ELSE Append(bad, l)
 
+TPersist == /\ Rec[l].a = "Persist"
+            /\ orders' = StateOf(Rec[l].post)
+            /\ last' = PersistEvent
+            /\ bad' = IF StateOf(Rec[l].post) = orders THEN bad ELSE Append(bad, l)
+
 TNext == /\ l <= Len(Rec)
          /\ l' = l + 1
-         /\ (TReset \/ TStepOK \/ TStepBad \/ TBatch)
+         /\ (TReset \/ TStepOK \/ TStepBad \/ TBatch \/ TPersist)
 
 TSpec == TInit /\ [][TNext]_tvars
 
 \* the C01 formulas, evaluated on every accepted step of the implementation
-TProps == [][last'.a = "Reset" \/ last'.a = "Batch" \/ bad' # bad \/ StepProps]_tvars
+TProps == [][last'.a = "Reset" \/ last'.a = "Batch" \/ last'.a = "Persist" \/ bad' # bad \/ StepProps]_tvars
 
 Done == l = Len(Rec) + 1 => PrintT(<<"TRACE_END", ToJson(bad)>>)
 Post == PrintT(<<"TRACE_DONE", TLCGet("stats").diameter, Len(Rec)>>)
